@@ -160,6 +160,12 @@ def programs(tier, seed):
     for p_ in a:
         p_.group = "wrapper-barrier"
     ps += a
+    # ... and like a `~` in front of an operator WITHOUT an expression operand (`~=>[]`, `~^^>`, `~|n>`, `~<->`, `~..`): shared with C14's flag family
+    from .gen_c14 import flag_programs
+    a, _ = flag_programs(tier, seed, 7200, prop="C03", only_ops=("=>[]", "=>[]u", "^^>", "|n>", "<->", "..", ">."))
+    for p_ in a:
+        p_.group = "adaptor-barrier"
+    ps += a
     k = 7500
     for macro, toks in (("try_join", ("<|", "<=", "!>")), ("join", ("<|", "!>")), ("try_join_spawn", ("<|", "<=", "!>")), ("try_join_async", ("<=", "!>")), ("join_async", ("!>",))):
         for tok in toks:
